@@ -63,7 +63,7 @@ func siteBlock(host string, port int, root, gz string) string {
 // ------------------------------------------------------------------- cases
 
 // Accept-Encoding alphabet. "-" = header absent.
-var acceptEncodings = []string{"-", "gzip", "gzip, br", "zstd, gzip", "br", "identity", "*", "x-gzip", "gzip;q=0", "zstd"}
+var acceptEncodings = []string{"-", "gzip", "gzip, br", "zstd, gzip", "br", "identity", "*", "x-gzip", "gzip;q=0", "zstd", "br;q=0, gzip", "identity, gzip;q=0", "zstd;q=0, br;q=0"}
 
 const (
 	aeOffered    = iota // a gzip token with non-zero weight
@@ -74,14 +74,45 @@ const (
 
 func aeClass(ae string) int {
 	switch ae {
-	case "gzip", "gzip, br", "zstd, gzip":
-		return aeOffered
 	case "*", "x-gzip":
 		return aeEither
-	case "gzip;q=0":
+	}
+	switch offered(ae, "gzip") {
+	case 1:
+		return aeOffered
+	case -1:
 		return aeQ0
 	}
 	return aeNotOffered
+}
+
+// offered reports how an Accept-Encoding value treats a coding: 1 named with a
+// non-zero weight, -1 named with q=0 (explicitly not acceptable), 0 not named.
+func offered(ae, coding string) int {
+	res := 0
+	for _, el := range strings.Split(ae, ",") {
+		parts := strings.Split(el, ";")
+		if !strings.EqualFold(strings.TrimSpace(parts[0]), coding) {
+			continue
+		}
+		q0 := false
+		for _, p := range parts[1:] {
+			kv := strings.SplitN(strings.TrimSpace(p), "=", 2)
+			if len(kv) == 2 && strings.EqualFold(kv[0], "q") {
+				if f, err := strconv.ParseFloat(strings.TrimSpace(kv[1]), 64); err == nil && f == 0 {
+					q0 = true
+				}
+			}
+		}
+		if q0 {
+			if res == 0 {
+				res = -1
+			}
+		} else {
+			res = 1
+		}
+	}
+	return res
 }
 
 // Case is one request; it is sent verbatim (except Host) to every site.
@@ -420,6 +451,25 @@ func judge(c *lib.Ctx, cs *Case, v variant, P, G *lib.Resp, count bool) *verdict
 		cnt("twin_content_length_present")
 	} else {
 		cnt("twin_content_length_absent")
+	}
+	// a precompressed sibling is only served in a coding the client offered
+	// (absolute check on both sites: the file server decides this, not gzip)
+	if cs.Kind == "static" && cs.AE != "*" {
+		for _, r := range []struct {
+			site string
+			ce   string
+		}{{"plain", pce}, {"gzip", gce}} {
+			if r.ce == "" || r.ce == "identity" || (r.site == "gzip" && r.ce == "gzip") {
+				continue
+			}
+			if offered(cs.AE, r.ce) != 1 {
+				how := "did not offer"
+				if offered(cs.AE, r.ce) == -1 {
+					how = "explicitly refused (q=0)"
+				}
+				return &verdict{"C18/static-sibling-in-unoffered-coding/" + r.ce, fmt.Sprintf("client sent Accept-Encoding %q, i.e. %s %s, but the %s site answered the static file with Content-Encoding %q", cs.AE, how, r.ce, r.site, r.ce)}
+			}
+		}
 	}
 	// already coded responses are not coded again
 	if pce != "" && gce != pce {
